@@ -2553,6 +2553,40 @@ class PyCdlib:
         if saved_exception is not None:
             raise saved_exception
 
+    def _copy_inode_data(self, ino, outfp, blocksize):
+        # type: (inode.Inode, BinaryIO, int) -> None
+        """
+        An internal method to copy the data of an Inode to a file object.  If
+        the Inode is an El Torito boot file that carries a Boot Info Table, the
+        table is overlaid over bytes 8-64 of the data.
+
+        Parameters:
+         ino - The Inode to get the data from.
+         outfp - The file object to write data to.
+         blocksize - The number of bytes in each transfer.
+        Returns:
+         Nothing.
+        """
+        with inode.InodeOpenData(ino, self.logical_block_size) as (data_fp, data_len):
+            # Copy the data into the output file descriptor.  If a boot info
+            # table is present, overlay the table over bytes 8-64 of the
+            # file.  Note that we never return more bytes than the length
+            # of the file, so the boot info table may get truncated.
+            if ino.boot_info_table is not None:
+                header_len = min(data_len, 8)
+                outfp.write(data_fp.read(header_len))
+                data_len -= header_len
+                if data_len > 0:
+                    bi_rec = ino.boot_info_table.record()
+                    table_len = min(data_len, len(bi_rec))
+                    outfp.write(bi_rec[:table_len])
+                    data_len -= table_len
+                    if data_len > 0:
+                        data_fp.seek(len(bi_rec), os.SEEK_CUR)
+                        utils.copy_data(data_len, blocksize, data_fp, outfp)
+            else:
+                utils.copy_data(data_len, blocksize, data_fp, outfp)
+
     def _udf_get_file_from_iso_fp(self, outfp, blocksize, udf_path):
         # type: (BinaryIO, int, bytes) -> None
         """
@@ -2593,8 +2627,7 @@ class PyCdlib:
             raise pycdlibexception.PyCdlibInvalidInput('Cannot write out an entry without data')
 
         if found_file_entry.get_data_length() > 0:
-            with inode.InodeOpenData(found_file_entry.inode, self.logical_block_size) as (data_fp, data_len):
-                utils.copy_data(data_len, blocksize, data_fp, outfp)
+            self._copy_inode_data(found_file_entry.inode, outfp, blocksize)
 
     def _get_file_from_iso_fp(self, outfp, blocksize, iso_path, rr_path,
                               joliet_path):
@@ -2669,25 +2702,7 @@ class PyCdlib:
             self._reshuffle_extents()
 
         while found_record.get_data_length() > 0:
-            with inode.InodeOpenData(found_record.inode, self.logical_block_size) as (data_fp, data_len):
-                # Copy the data into the output file descriptor.  If a boot info
-                # table is present, overlay the table over bytes 8-64 of the
-                # file.  Note that we never return more bytes than the length
-                # of the file, so the boot info table may get truncated.
-                if found_record.inode.boot_info_table is not None:
-                    header_len = min(data_len, 8)
-                    outfp.write(data_fp.read(header_len))
-                    data_len -= header_len
-                    if data_len > 0:
-                        bi_rec = found_record.inode.boot_info_table.record()
-                        table_len = min(data_len, len(bi_rec))
-                        outfp.write(bi_rec[:table_len])
-                        data_len -= table_len
-                        if data_len > 0:
-                            data_fp.seek(len(bi_rec), os.SEEK_CUR)
-                            utils.copy_data(data_len, blocksize, data_fp, outfp)
-                else:
-                    utils.copy_data(data_len, blocksize, data_fp, outfp)
+            self._copy_inode_data(found_record.inode, outfp, blocksize)
 
             if found_record.data_continuation is not None:
                 found_record = found_record.data_continuation
